@@ -277,3 +277,45 @@ func VerifC07FrozenJava()       { c07Frozen("java") }
 func VerifC07FrozenPHP()        { c07Frozen("php") }
 func VerifC07FrozenPython()     { c07Frozen("python") }
 func VerifC07FrozenTypeScript() { c07Frozen("typescript") }
+
+// ---------------------------------------------------------------- C05 (chains): a language's chain never turns a resolving reference into a dangling one
+
+func c05Chain(lang string) {
+	g := c06Gen(false)
+	g.Names = []string{"Bar", "Baz"}
+	g.Nullable, g.Required = false, false
+	g.Leaves = symir.KScalar | symir.KRef | symir.KEnum | symir.KConstRef
+	in := c06Input(g, c06Depth())
+	if v.Bool("entrypoint") {
+		in[0].EntryPoint = "Foo"
+		in[0].EntryPointType = ast.NewRef("p", "Foo")
+	}
+	v.Assume(symir.AllResolve(in))
+	v.Observe(in)
+	foo, _ := in.LocateObject("p", "Foo")
+	v.Excuse("entrypoint-object-inlined", lang == "php" && in[0].EntryPoint == "Foo" && foo.Type.Kind != ast.KindStruct && foo.Type.Kind != ast.KindEnum && foo.Type.Kind != ast.KindRef)
+	out, err := chainOf(lang).Process(in)
+	if err != nil {
+		v.Reach("chain returned an error")
+		return
+	}
+	v.Observe(out)
+	v.Assert(symir.AllResolve(out), "C05: the language's chain turned a resolving reference (or mapping target, or entry point) into a dangling one")
+	// builder targets
+	for _, b := range (&ast.BuilderGenerator{}).FromAST(out) {
+		v.Assert(symir.Exists(out, b.For.SelfRef.ReferredPkg, b.For.SelfRef.ReferredType), "C05: a builder targets an object that does not exist")
+		for _, o := range b.Options {
+			for _, a := range o.Args {
+				for _, pos := range symir.Collect(a.Type, "arg", nil) {
+					v.Assert(v.Or(!symir.Loaded(out, pos.Pkg), symir.Exists(out, pos.Pkg, pos.Name)), "C05: a builder option argument names an object that does not exist")
+				}
+			}
+		}
+	}
+}
+
+func VerifC05ChainGo()         { c05Chain("go") }
+func VerifC05ChainJava()       { c05Chain("java") }
+func VerifC05ChainPHP()        { c05Chain("php") }
+func VerifC05ChainPython()     { c05Chain("python") }
+func VerifC05ChainTypeScript() { c05Chain("typescript") }
